@@ -379,8 +379,16 @@ def gen_spec(tape, cfg: dict[str, Any]) -> dict:
                     # a derived waiter id is shared by all invocations of a step that wait for the same type with
                     # the same requirements; keep logical waits distinct (per-input requirement) outside s0
                     w_req = True
-                sc.append(("wait", tape.choice(cfg["wait_types"], "wait.type"), w_req, w_to, w_id,
-                           tape.chance(50, 100, "wait.ask")))
+                first = ("wait", tape.choice(cfg["wait_types"], "wait.type"), w_req, w_to, w_id,
+                         tape.chance(50, 100, "wait.ask"))
+                if cfg.get("p_wait2") and w_id is not None and tape.chance(cfg["p_wait2"], 100, "wait2?"):
+                    # a step with two waits: when the first one times out the body goes on to a fallback wait (so the timed-out
+                    # waiter stays registered while the step is suspended again); when it is answered the body waits once more
+                    sc.append(first + ("continue",))
+                    sc.append(("wait", tape.choice(cfg["wait_types"], "wait2.type"), tape.chance(60, 100, "wait2.req"),
+                               tape.choice(cfg["wait_timeouts"], "wait2.timeout"), "w2", tape.chance(50, 100, "wait2.ask")))
+                else:
+                    sc.append(first)
             if not sync and cfg.get("p_stall") and tape.chance(cfg["p_stall"], 100, "stall?"):
                 # synchronous (event-loop blocking) work inside the body: time passes, nothing else runs
                 sc.append(("stall", tape.choice(cfg.get("stall_grid", [1, 2]), "stall.d")))
@@ -852,7 +860,7 @@ class EngineWorld:
         if ask:
             # constructed on every (re)execution, like user code would
             waiter_event = EV.Ask0(uid=-2, parent=rec["uid"] if isinstance(rec["uid"], int) else -1,
-                                   src=s["name"], key=key or f"any{rec['uid']}")
+                                   src=s["name"], key=(key or f"any{rec['uid']}") + ("#w2" if waiter_id == "w2" else ""))
         wid = waiter_id if waiter_id is None else f"{waiter_id}:{rec['uid']}"
         kwargs: dict[str, Any] = {}
         if timeout != "default":
